@@ -8,9 +8,34 @@ same operations (the oracle: decides "violation") and (b) the Coq model C19/Mode
 from_buffer lengths/aliasing, memmove overlaps (cdata / memoryview / bytes operands) and ffi.buffer sizes
 are checked the same way.
 """
+import os
+
 from lib import vlib
+from props import c19_regen
 
 ID = "C19"
+
+
+def regen(ctx):
+    path = os.path.join(vlib.COQ, "C19", "Gen.v")
+    try:
+        src = open(os.path.join(vlib.REPO, "src", "c", "_cffi_backend.c")).read()
+        text = c19_regen.render(c19_regen.extract(src))
+    except (c19_regen.RegenError, OSError) as e:
+        ctx.translator("C19/Gen.v", "fallback: %s" % e)
+        text = None
+    old = open(path).read() if os.path.exists(path) else None
+    if text is not None:
+        if old == text:
+            ctx.translator("C19/Gen.v", "unchanged")
+        else:
+            with vlib.CoqLock():
+                with open(path, "w") as f:
+                    f.write(text)
+            ctx.translator("C19/Gen.v", "regenerated")
+    vo = os.path.join(vlib.COQ, "C19", "Model.vo")
+    if not os.path.exists(vo) or os.path.getmtime(vo) < os.path.getmtime(path):
+        vlib.coq_make(["C19/Model.vo", "C19/Spec.vo"])
 M63 = 1 << 63
 
 
@@ -92,26 +117,44 @@ def gen_hist(rng):
     return c
 
 
-FB_TYPES = [("char", 1), ("unsigned char", 1), ("short", 2), ("int", 4), ("long long", 8), ("double", 8),
-            ("struct s3", 3), ("int[0]", 0), ("char[0]", 0)]
+# every kind of item type: (ctype, size, flags of the item descriptor as in C19/Types.v)
+FB_ITEMS = [("char", 1, "F_CHAR"), ("signed char", 1, "F_SIGNED"), ("unsigned char", 1, "F_UNSIGNED"),
+            ("_Bool", 1, "F_UNSIGNED; F_BOOL"), ("short", 2, "F_SIGNED"), ("unsigned short", 2, "F_UNSIGNED"),
+            ("int", 4, "F_SIGNED"), ("unsigned int", 4, "F_UNSIGNED"), ("long long", 8, "F_SIGNED"),
+            ("unsigned long", 8, "F_UNSIGNED"), ("float", 4, "F_FLOAT"), ("double", 8, "F_FLOAT"),
+            ("long double", 16, "F_FLOAT; F_LONGDOUBLE"), ("float _Complex", 8, "F_COMPLEX"),
+            ("double _Complex", 16, "F_COMPLEX"), ("wchar_t", 4, "F_CHAR"), ("char16_t", 2, "F_CHAR"),
+            ("char32_t", 4, "F_CHAR"), ("enum e_s", 4, "F_SIGNED; F_ENUM"), ("enum e_u", 4, "F_UNSIGNED; F_ENUM"),
+            ("enum e_l", 8, "F_SIGNED; F_ENUM"), ("void *", 8, "F_POINTER"), ("int *", 8, "F_POINTER"),
+            ("int(*)(int)", 8, "F_FUNCTIONPTR"), ("struct s3", 3, "F_STRUCT"), ("struct s8", 8, "F_STRUCT"),
+            ("union u4", 4, "F_UNION"), ("int[3]", 12, "F_ARRAY"), ("int[0]", 0, "F_ARRAY"), ("char[0]", 0, "F_ARRAY")]
+FB_TYPES = [(t, sz) for t, sz, _ in FB_ITEMS]
+FB_FLAGS = {t: f for t, _, f in FB_ITEMS}
 
 
-def gen_fb(rng):
-    T, size = rng.choice(FB_TYPES)
+def fb_ctype(T, form, k):
+    """the C declaration of T[] / T[k] / T*"""
+    dims = {"open": "[]", "fixed": "[%s]" % k, "ptr": None}[form]
+    if T.endswith("]"):                         # array items: 'int[3]' -> 'int[][3]' / 'int(*)[3]'
+        b, rest = T[:T.index("[")], T[T.index("["):]
+        return b + ("(*)" + rest if dims is None else dims + rest)
+    if "(*)" in T:                              # function pointers: 'int(*)(int)' -> 'int(*[])(int)'
+        return T.replace("(*)", "(**)" if dims is None else "(*%s)" % dims)
+    return T + (" *" if dims is None else dims)
+
+
+def gen_fb(rng, T=None):
+    T, size = rng.choice(FB_TYPES) if T is None else (T, dict(FB_TYPES)[T])
     L = rng.choice([0, 1, 2, 3, 4, 7, 8, 9, 15, 16, 17, 24])
     obj = rng.choice(["bytearray", "bytearray", "bytes", "array_B", "array_H", "memoryview", "str", "int"])
     r = rng.random()
-    if r < 0.5:
-        ctype, form, k = T + "[]", "open", None
-    elif r < 0.9:
-        k = rng.choice([0, 1, 2, L // max(size, 1), L // max(size, 1) + 1, max(0, L // max(size, 1) - 1)])
-        ctype, form = "%s[%d]" % (T, k), "fixed"
+    if r < 0.55:
+        form, k = "open", None
+    elif r < 0.92:
+        form, k = "fixed", rng.choice([0, 1, 2, L // max(size, 1), L // max(size, 1) + 1, max(0, L // max(size, 1) - 1)])
     else:
-        ctype, form, k = T + " *", "ptr", None
-    if T.endswith("[0]"):
-        b = T[:-3]
-        ctype = {"open": b + "[][0]", "fixed": "%s[%s][0]" % (b, k), "ptr": b + "(*)[0]"}[form]
-    return dict(kind="fb", ctype=ctype, form=form, k=k, size=size, obj=obj,
+        form, k = "ptr", None
+    return dict(kind="fb", item=T, ctype=fb_ctype(T, form, k), form=form, k=k, size=size, obj=obj,
                 data=bytes(rng.getrandbits(8) for _ in range(L)).hex())
 
 
@@ -150,6 +193,12 @@ def generate(ctx):
         for size in [None, 0, 1, total - 1, total, total + 3, 8, -1, -5]:
             cases.append(dict(kind="size", what=what, ctype=ctype, len=ln, isz=isz, size=size))
     cases += [gen_hist(rng) for _ in range(700 if not big else 8000)]
+    for T, _ in FB_TYPES:                       # every item kind at least a few times, open arrays first
+        for _ in range(3):
+            c = gen_fb(rng, T)
+            if _ == 0:
+                c.update(form="open", k=None, ctype=fb_ctype(T, "open", None), obj="bytearray")
+            cases.append(c)
     cases += [gen_fb(rng) for _ in range(250 if not big else 2500)]
     cases += [gen_mm(rng) for _ in range(400 if not big else 4000)]
     # design witnesses
@@ -379,11 +428,24 @@ def evaluate(ctx, cases):
             # the property: open arrays get len // size items, fixed arrays need k*size bytes, memory is aliased
             if has_buf and c["form"] == "open" and size > 0:
                 if o != ["ok", L // size]:
-                    ctx.violation(c, "from_buffer(%r, %d bytes) gives %r, expected %d items" % (c["ctype"], L, o, L // size))
+                    ctx.violation(c, "from_buffer(%r, %d bytes) has %r items, expected len(obj) // sizeof(T) = %d"
+                                  % (c["ctype"], L, o, L // size))
             if has_buf and c["form"] == "fixed":
                 want = ["err", "ValueError"] if L < c["k"] * size else ["ok", c["k"]]
                 if o != want:
                     ctx.violation(c, "from_buffer(%r, %d bytes) gives %r, expected %r" % (c["ctype"], L, o, want))
+            if o[0] == "ok" and o[1] >= 0:
+                if r.get("past_end") != "IndexError":
+                    ctx.violation(c, "from_buffer(%r, %d bytes): index %d (one past the end) gives %r, expected IndexError"
+                                  % (c["ctype"], L, o[1], r.get("past_end")))
+                if r.get("last", "ok") != "ok":
+                    ctx.violation(c, "from_buffer(%r, %d bytes): the last item cannot be read: %r" % (c["ctype"], L, r["last"]))
+                if r.get("span") != o[1] * size:
+                    ctx.violation(c, "len(ffi.buffer(from_buffer(%r, %d bytes))) is %r, the array spans %d bytes"
+                                  % (c["ctype"], L, r.get("span"), o[1] * size))
+                if c["form"] == "open" and o[1] * size > L:
+                    ctx.violation(c, "from_buffer(%r, %d bytes): %d items of %d bytes extend past the object's memory"
+                                  % (c["ctype"], L, o[1], size))
             if not has_buf and o[0] != "err":
                 ctx.violation(c, "from_buffer accepted a %s" % c["obj"])
             if r.get("alias") is False or r.get("addr_same") is False:
@@ -391,6 +453,11 @@ def evaluate(ctx, cases):
             ctx.nontrivial(("fb", c["ctype"], c["obj"], L))
             t = {"open": "FOpenArray (%d)" % size, "fixed": "FFixedArray (%s) (%d)" % (c["k"], size), "ptr": "FPointer"}[c["form"]]
             lit = res_lit(o if c["form"] != "ptr" or o[0] == "err" else ["ok", L])
+            if lit and has_buf and c["form"] == "open":
+                # the code-shaped branch with the regenerated fast-path test
+                scalar.append(("from_buffer_open_code gen_from_buffer_fast (mk_item (%d) [%s]) (%d)"
+                               % (size, FB_FLAGS[c["item"]], L), lit))
+                scalar_owner.append(c)
             if lit:
                 scalar.append(("from_buffer_length (%s) %s %s (%d)" % (t, "true" if c["obj"] == "str" else "false",
                                                                         "true" if has_buf else "false", L), lit))
@@ -450,7 +517,8 @@ def evaluate(ctx, cases):
              "fun c => match c with (w, ops) => spec_run w ops end", "run_eqb"),
             ("from_buffer_length / buffer_size", scalar, scalar_owner, "fun r : res Z => r", "resz_eqb"),
             ("memmove", mm, mm_owner, "fun r : res (list Z) => r", "resl_eqb")):
-        bad, outs, err = vlib.coq_mismatches(["C19.Model", "C19.Spec"], fexpr, eqb, lst, prelude="Open Scope Z_scope.",
+        bad, outs, err = vlib.coq_mismatches(["C19.Types", "C19.Gen", "C19.Model", "C19.Spec"], fexpr, eqb, lst,
+                                             prelude="Open Scope Z_scope.",
                                              shard=250)
         if err:
             ctx.obligation_broken("C19 model evaluation (%s)" % name, err)
